@@ -373,6 +373,8 @@ def build_python_source(spec):
         cols, rows = sp['cols'], sp['rows']
         if sp['type'] == 'frame':
             out[name] = pd.DataFrame([list(r) for r in rows], columns=cols) if rows else pd.DataFrame({c: pd.Series([], dtype='object') for c in cols})
+            for c_, dt_ in (sp.get('dtypes') or {}).items():
+                out[name][c_] = out[name][c_].astype(dt_)       # pandas nullable dtypes: None becomes pd.NA
         elif sp['type'] == 'pylist':
             out[name] = [dict(zip(cols, r)) for r in rows]
         else:
